@@ -79,6 +79,8 @@ def realize(world, data, mod):
         for k, v in fields.items():
             object.__setattr__(obj, k, v)
         return obj
+    if callable(data):
+        return data
     if isinstance(data, list):
         return [realize(world, x, mod) for x in data]
     if isinstance(data, tuple):
@@ -189,14 +191,17 @@ def verify_case(fc: FnContract, case: Case, timeout_ms=10000, budget_s=240):
 def replay_case(fc: FnContract, case: Case, model):
     """run the REAL function on the counter-model and evaluate the executable contract"""
     world = fc.world
-    if case.native_gen is not None:
+    if case.native_gen is not None and not model.get("__generated__"):
         # spec functions are uninterpreted in the VCs, so a model may violate their real meaning (e.g. a cached total that is
         # not the sum): the case's repair hook re-derives such fields from the primary data before the native run
         model = case.native_gen(None, model)
     mod = importlib.import_module(module_name(world.file))
     import copy
     args = {p: realize(world, model[p], mod) for p in case.params}
-    old = copy.deepcopy(args)
+    try:
+        old = copy.deepcopy(args)
+    except Exception:  # pylint: disable=broad-except
+        old = dict(args)
     parts = fc.qualname.split(".")
     try:
         if fc.setter:
@@ -264,6 +269,8 @@ def gen_value(world, t, rng, depth=0):
         return t.args[0]
     if k == "classref":
         return {"__classref__": t.args[0]}
+    if k == "ufunc":
+        return {"__ufunc__": t.args[0]}
     if k == "rec":
         ci = world.classes[t.args[0]]
         ov = t.kw.get("override", {})
@@ -290,7 +297,7 @@ def search_counterexample(fc, case, seed=0, tries=3000, budget_s=20):
         try:
             m = {p: gen_value(fc.world, t, rng) for p, t in case.params.items()}
             if case.native_gen is not None:
-                m = case.native_gen(rng, m)
+                m = dict(case.native_gen(rng, m), __generated__=True)
             rp = replay_case(fc, case, m)
         except Exception:  # pylint: disable=broad-except
             continue
